@@ -71,6 +71,28 @@ Theorem C07_client_non_once : forall maxr c ins, ex_P_non (snd (ex_cli_run maxr 
 Proof. exact ex_client_non. Qed.
 Print Assumptions C07_client_non_once.
 
+(* The duplicate filter, exactly (formal content of the signature of finding C07-F1): for every
+   client state and every input sequence, a Confirmable response with the mid of one that was
+   delivered is delivered again only if a Confirmable response with another mid was delivered in
+   between; a piggybacked response only if a piggybacked response with another mid was delivered,
+   or a new request took that mid, in between. *)
+Theorem C07_client_con_filter : forall maxr c ins t1 s k ok st a t2 k' ok' outs' t3,
+  snd (ex_cli_run maxr c ins) =
+    t1 ++ (ExRx (ExConR s k) ok, [ExResp 0 s k st; ExTx a]) :: t2 ++
+    (ExRx (ExConR s k') ok', outs') :: t3 ->
+  (forall o, In o t2 -> ex_delivers_kind 0 o = false) ->
+  ex_delivers_kind 0 (ExRx (ExConR s k') ok', outs') = false.
+Proof. exact ex_client_con_filter. Qed.
+Print Assumptions C07_client_con_filter.
+
+Theorem C07_client_ack_filter : forall maxr c ins t1 s k ok st t2 k' ok' outs' t3,
+  snd (ex_cli_run maxr c ins) =
+    t1 ++ (ExRx (ExAckR s k) ok, [ExResp 2 s k st]) :: t2 ++ (ExRx (ExAckR s k') ok', outs') :: t3 ->
+  (forall o, In o t2 -> ex_delivers_kind 2 o = false /\ ex_sends_mid s o = false) ->
+  outs' = [].
+Proof. exact ex_client_ack_filter. Qed.
+Print Assumptions C07_client_ack_filter.
+
 (* "Never both, never twice".  Full-strength statement (all configurations):
      forall cf cmid0 smid0 acts, ex_P_once (ex_sys_trace cf (ex_sys_init cmid0 smid0) acts)
    is FALSE for the faithful model - see the three _refuted theorems below, each replayed on
